@@ -597,6 +597,10 @@ def run(chk, prog):
     if unit is None:
         raise fe.AnalysisBroken('io.c not loaded')
     sql_buffer_rule(chk, prog, Rs)
+    Rl = chk.rule('IO.lock-lifetime', 'no lock on the model file outlives the Read*/Write* call that took it: a connection-lifetime lock '
+                  '(PRAGMA locking_mode=EXCLUSIVE, uncommitted EXCLUSIVE/IMMEDIATE transaction) is never combined with a statement that may stay '
+                  'unfinalized when the connection is closed')
+    lock_lifetime_rule(chk, prog, Rl)
     codecs = {}
     for f in prog.all_funcs():
         if f.unit.name == 'io.c':
@@ -745,3 +749,111 @@ def run(chk, prog):
                     chk.violation(Finding('IO.precision', rel(f.file), f.name, 'format', f.unit.where(node),
                                           'INSERT formats the value with %%.%d%s: fewer than the %d digits needed for 1e-15*max(1,|v|)' % (p, cv, need)))
     return ntables
+
+
+def lock_lifetime_rule(chk, prog, R):
+    """SQLite semantics used: sqlite3_close() does not close a connection that still owns an unfinalized statement, and
+    `PRAGMA locking_mode = EXCLUSIVE` (or an EXCLUSIVE/IMMEDIATE transaction that is never committed) keeps the file lock until the
+    connection is really closed.  Either alone is harmless for C16; together a read leaves the file locked and every later write
+    to that path in the same process fails silently, so the file keeps the OLD model."""
+    unit_funcs = [f for f in prog.all_funcs() if f.unit.name == 'io.c' and f.body is not None]
+    # (1) statements that may reach the end of their function unfinalized
+    leaky = []
+    for f in unit_funcs:
+        prepared = []
+        for n in walk(f.body):
+            if n.get('kind') == 'CallExpr' and callee_name(n) in ('sqlite3_prepare_v2', 'sqlite3_prepare', 'sqlite3_prepare_v3'):
+                a = call_args(n)
+                s_ = strip(a[3]) if len(a) > 3 else None
+                if s_ is not None and s_.get('kind') == 'UnaryOperator' and s_.get('opcode') == '&':
+                    v = strip(kids(s_)[0])
+                    if v.get('kind') == 'DeclRefExpr':
+                        prepared.append((v['referencedDecl'].get('name'), n))
+        for var, node in prepared:
+            if not _finalized_on_all_paths(f, var, node):
+                leaky.append((f, var, node))
+    # (2) requests that make a lock outlive a statement
+    holders = []
+    for f in unit_funcs:
+        for n in walk(f.body):
+            if n.get('kind') == 'CallExpr' and callee_name(n) == 'sqlite3_exec':
+                for x in walk(n):
+                    if x.get('kind') == 'StringLiteral':
+                        t = (x.get('value') or '').upper().replace(' ', '')
+                        if 'LOCKING_MODE=EXCLUSIVE' in t or 'BEGINEXCLUSIVE' in t or 'BEGINIMMEDIATE' in t:
+                            holders.append((f, n, x.get('value')))
+    chk.extra['sqlite_unfinalized_statements'] = ['%s %s (%s)' % (f.unit.where(n), f.name, v) for f, v, n in leaky]
+    if not holders:
+        chk.instance(R, 'no connection-lifetime lock is requested (%d statement(s) may stay unfinalized at close: harmless without one)' % len(leaky))
+        return
+    for f, n, txt in holders:
+        if leaky:
+            lf, lv, ln = leaky[0]
+            chk.instance(R, '%s %s requests %s while %s leaves statement `%s` unfinalized' % (f.unit.where(n), f.name, txt, lf.name, lv), 'refuted')
+            chk.violation(Finding('IO.lock-lifetime', rel(f.file), f.name, 'lock:' + (txt or '')[:40], f.unit.where(n),
+                                  '%s requests a lock that lasts until the connection is closed (%s), but %s (%s) can return with statement `%s` '
+                                  'still unfinalized, so sqlite3_close() does not close that connection: after a read the file stays locked and '
+                                  'every later write to the same path fails, the file keeps the previously written model'
+                                  % (f.name, txt, lf.name, lf.unit.where(ln), lv)))
+        else:
+            chk.instance(R, '%s %s requests %s; every statement is finalized before close' % (f.unit.where(n), f.name, txt))
+
+
+def _finalized_on_all_paths(f, var, prep):
+    """structured must-analysis: after the prepare call, does every path to the end of the function pass sqlite3_finalize(var) or abort()?"""
+    def is_fin(n):
+        return n.get('kind') == 'CallExpr' and callee_name(n) in ('sqlite3_finalize',) and any(
+            strip(a).get('kind') == 'DeclRefExpr' and strip(a)['referencedDecl'].get('name') == var for a in call_args(n))
+
+    def is_abort(n):
+        return n.get('kind') == 'CallExpr' and callee_name(n) in ('abort', 'exit')
+
+    state = {'seen': False}
+
+    def stmt(n, fin):
+        """returns (fin_after, terminated)"""
+        k = n.get('kind')
+        if k == 'CompoundStmt':
+            for c in kids(n):
+                fin, term = stmt(c, fin)
+                if term:
+                    return fin, True
+            return fin, False
+        if k == 'IfStmt':
+            ks = kids(n)
+            f0, _ = stmt(ks[0], fin)
+            f1, t1 = stmt(ks[1], f0)
+            f2, t2 = stmt(ks[2], f0) if len(ks) > 2 else (f0, False)
+            if t1 and t2:
+                return True, True
+            if t1:
+                return f2, False
+            if t2:
+                return f1, False
+            return (f1 and f2), False
+        if k in ('ForStmt', 'WhileStmt', 'DoStmt'):
+            for c in kids(n):
+                if c.get('kind'):
+                    f_in, _ = stmt(c, fin)
+                    # a finalize inside a loop body does not count after the loop (zero trips) unless the prepare is inside too
+                    if state['seen'] and any(x is prep for x in walk(n)):
+                        fin = f_in
+            return fin, False
+        if k == 'ReturnStmt':
+            if state['seen'] and not fin:
+                state['leak'] = True
+            return fin, True
+        # expression statement
+        for x in walk(n):
+            if x is prep:
+                state['seen'] = True
+                fin = False
+            elif state['seen'] and is_fin(x):
+                fin = True
+            elif is_abort(x):
+                return True, True
+        return fin, False
+    fin, term = stmt(f.body, True)
+    if state.get('leak'):
+        return False
+    return fin or not state['seen']
